@@ -11,6 +11,7 @@ import (
 	"sort"
 	"strconv"
 	"strings"
+	"sync/atomic"
 
 	"github.com/miekg/dns"
 	"github.com/semihalev/sdns/internal/verif/vlib"
@@ -23,6 +24,7 @@ import (
 type built struct {
 	m     *dns.Msg
 	kinds [3][]string // per slot: a | f | n | o<id> | w | x<id>
+	skips bool        // holds a record whose library packing skips bytes without writing them (16-byte non-IPv4 in an A/L32/gateway)
 	pure  bool        // only non-nil records of library types with library-owned nested values
 	prof  string
 }
@@ -44,6 +46,17 @@ type foreignRR struct{ dns.RR }
 type foreignOption struct{ dns.EDNS0 }
 type foreignSVCB struct{ dns.SVCBKeyValue }
 
+// foreignCalls counts every call into code declared outside the library that
+// the wrappers below can observe (the pooled packer must never make one).
+var foreignCalls int64
+
+func (f foreignRR) Header() *dns.RR_Header { atomic.AddInt64(&foreignCalls, 1); return f.RR.Header() }
+func (f foreignOption) Option() uint16     { atomic.AddInt64(&foreignCalls, 1); return f.EDNS0.Option() }
+func (f foreignSVCB) Key() dns.SVCBKey {
+	atomic.AddInt64(&foreignCalls, 1)
+	return f.SVCBKeyValue.Key()
+}
+
 type privData struct{ s string }
 
 func (p *privData) String() string             { return p.s }
@@ -54,7 +67,7 @@ func (p *privData) Unpack(b []byte) (int, error) {
 	return len(b), nil
 }
 func (p *privData) Copy(d dns.PrivateRdata) error { d.(*privData).s = p.s; return nil }
-func (p *privData) Len() int                      { return len(p.s) }
+func (p *privData) Len() int                      { atomic.AddInt64(&foreignCalls, 1); return len(p.s) }
 
 const typePrivate = 65281
 
@@ -513,6 +526,26 @@ func build(seed uint64, profile string) *built {
 		}
 		if r.Chance(1, 2) {
 			g.newOPT(2)
+		}
+	case "skipwrite":
+		// records whose library packing ADVANCES the offset without writing every byte it
+		// accounts for: a *dns.A / L32 / gateway holding a 16-byte address that is not IPv4
+		m.Question = []dns.Question{{Name: "skip.example.", Qtype: dns.TypeA, Qclass: dns.ClassINET}}
+		m.Response = true
+		g.b.skips = true
+		v6 := net.ParseIP("2001:db8::1")
+		for i := 0; i < 1+r.Intn(3); i++ {
+			switch r.Intn(4) {
+			case 0, 1:
+				g.put(r.Intn(3), &dns.A{Hdr: dns.RR_Header{Name: "skip.example.", Rrtype: dns.TypeA, Class: dns.ClassINET, Ttl: 60}, A: v6}, "a")
+			case 2:
+				g.put(r.Intn(3), &dns.L32{Hdr: dns.RR_Header{Name: "skip.example.", Rrtype: dns.TypeL32, Class: dns.ClassINET, Ttl: 60}, Preference: 10, Locator32: v6}, "a")
+			default:
+				g.put(r.Intn(3), &dns.AMTRELAY{Hdr: dns.RR_Header{Name: "skip.example.", Rrtype: dns.TypeAMTRELAY, Class: dns.ClassINET, Ttl: 60}, Precedence: 1, GatewayType: dns.IPSECGatewayIPv4, GatewayAddr: v6}, "a")
+			}
+		}
+		if r.Chance(1, 2) {
+			g.put(0, g.rr(g.name()), "a")
 		}
 	case "cdn":
 		// many records under one long owner name: far past the pooled buffer uncompressed,
